@@ -54,6 +54,45 @@ AddAttributeF(m, f, n, v, d, z) ==
 AddConstraintF(m, n, ast) == [m EXCEPT !.ctcs = Append(@, [name |-> n, ast |-> ast])]
 
 ---------------------------------------------------------------------------
+(* In-place edits of a built model through public attributes and methods   *)
+(* (the library has no dedicated mutators beyond add_child): what each     *)
+(* assignment does to the abstract state.                                  *)
+
+\* a relation is addressed as (owner, position among the owner's relations)
+RelPos(m, j)     == Cardinality({i \in 1..j : m.rels[i].owner = m.rels[j].owner})
+RelIdx(m, o, ri) == CHOOSE j \in DOMAIN m.rels : m.rels[j].owner = o /\ RelPos(m, j) = ri
+HasRel(m, o, ri) == \E j \in DOMAIN m.rels : m.rels[j].owner = o /\ RelPos(m, j) = ri
+\* rel.card_min, rel.card_max = lo, hi
+SetCardF(m, j, lo, hi) == [m EXCEPT !.rels[j].lo = lo, !.rels[j].hi = hi]
+\* rel.add_child(Feature(n, parent=owner))
+AddChildF(m, j, n) == [m EXCEPT !.feats = Append(@, Feat(n, m.rels[j].owner)),
+                                !.rels[j].kids = Append(@, n)]
+\* rel.children.remove(child)   (child is a leaf; the relation keeps at least one child)
+RemoveKidF(m, j, k) ==
+  LET n == m.rels[j].kids[k]
+  IN  [m EXCEPT !.feats = SelectSeq(@, LAMBDA f : f.name # n),
+                !.rels[j].kids = SelectSeq(@, LAMBDA x : x # n)]
+\* feature.is_abstract = not feature.is_abstract
+ToggleAbstractF(m, f) == [m EXCEPT !.feats[FeatIdx(m, f)].abs = ~@]
+\* attribute.set_default_value(v)
+SetAttrValF(m, f, k, v) == [m EXCEPT !.feats[FeatIdx(m, f)].attrs[k].val = v]
+\* model.ctcs.pop(i)
+RemoveCtcF(m, i) == [m EXCEPT !.ctcs = SubSeq(@, 1, i - 1) \o SubSeq(@, i + 1, Len(@))]
+\* ctc.ast.root.data = op
+SetCtcOpF(m, i, op) == [m EXCEPT !.ctcs[i].ast.op = op]
+\* feature.name = new   (one assignment: every reference to the object sees it)
+RnF(x, old, new) == IF x = old THEN new ELSE x
+RenameF(m, old, new) ==
+  [root  |-> RnF(m.root, old, new),
+   feats |-> [i \in DOMAIN m.feats |->
+                [m.feats[i] EXCEPT !.name = RnF(@, old, new), !.par = RnF(@, old, new),
+                                   !.attrs = [k \in DOMAIN @ |-> [@[k] EXCEPT !.owner = RnF(@, old, new)]]]],
+   rels  |-> [j \in DOMAIN m.rels |->
+                [m.rels[j] EXCEPT !.owner = RnF(@, old, new), !.pp = RnF(@, old, new),
+                                  !.kids = [k \in DOMAIN @ |-> RnF(@[k], old, new)]]],
+   ctcs  |-> m.ctcs]
+
+---------------------------------------------------------------------------
 (* Structure *)
 
 Names(m)     == {m.feats[i].name : i \in DOMAIN m.feats}
